@@ -198,6 +198,15 @@ def guard_interval(cx, p):
         if not v[1]:
             op = {'Lt': 'Ge', 'Le': 'Gt', 'Gt': 'Le', 'Ge': 'Lt', 'Eq': 'Ne', 'Ne': 'Eq'}[op]
         {'Lt': poly.lt, 'Le': poly.le, 'Gt': poly.gt, 'Ge': poly.ge, 'Eq': poly.eq, 'Ne': lambda a, b: None}[op](a, b)
+    # `frames.get(..n)` is Some exactly when n <= frames.len()
+    for k, e in call_events(p):
+        if rp(e) == SL + 'get' and len(e['args']) == 2 and e['args'][1][0] == 'agg' and e['args'][1][1][1] == 'core::ops::range::RangeTo':
+            (b_, h_, fr_), _fi = wsym(cx)
+            n = lin(cx, p, e['args'][1][2][0])
+            ln = Aff.sym('L') if e['args'][0] == ('ref', (('P', fr_), ())) else None
+            d = dict(cond_facts(p)).get(('discr', ('ret', k)))
+            if n is not None and ln is not None and d is not None and d[0] == 'int':
+                (poly.le if d[1] == 1 else poly.gt)(n, ln)
     return poly
 
 
@@ -228,6 +237,13 @@ def check_windower(run, cx, cfg):
                 break
             chunk = [(k, e) for k, e in call_events(p) if 'core::ops::index::Index' in rp(e) and e['args'][1][0] == 'agg' and e['args'][1][1][1] == 'core::ops::range::RangeTo'
                      and e['args'][0] == ('ref', (('P', fr), ())) and e['args'][1][2][0] == b]
+            chunk_ref = ('ref', (('P', ('ret', chunk[0][0])), ())) if len(chunk) == 1 else None
+            if not chunk:
+                gets = [(k, e) for k, e in call_events(p) if rp(e) == SL + 'get' and e['args'][0] == ('ref', (('P', fr), ())) and e['args'][1][0] == 'agg'
+                        and e['args'][1][1][1] == 'core::ops::range::RangeTo' and e['args'][1][2][0] == b]
+                if len(gets) == 1 and dict(cond_facts(p)).get(('discr', ('ret', gets[0][0]))) == ('int', 1, 'isize'):
+                    chunk = gets
+                    chunk_ref = ('ref', (('P', ('field', ('variant', ('ret', gets[0][0]), 1), 0)), ()))
             if len(chunk) != 1:
                 bad = 'the chunk must be frames[..bin]'
                 break
@@ -242,7 +258,7 @@ def check_windower(run, cx, cfg):
                 break
             sig = win[2][cx.field_index('dasp_signal::window::Windowed', 'signal')]
             # signal = from_iter(chunk.iter().cloned())
-            its = [(k, e) for k, e in call_events(p) if rp(e) == SL + 'iter' and e['args'][0] == ('ref', (('P', ('ret', chunk[0][0])), ()))]
+            its = [(k, e) for k, e in call_events(p) if rp(e) == SL + 'iter' and e['args'][0] == chunk_ref]
             if not (sig[0] == 'agg' and sig[1][1] == 'dasp_signal::FromIterator') or len(its) != 1:
                 bad = 'the chunk signal must iterate exactly frames[..bin]'
                 break
